@@ -62,7 +62,7 @@ type Engine struct {
 func NewEngine(prog *ssa.Program, ts *TermStore, solver *Solver) *Engine {
 	return &Engine{ts: ts, solver: solver, prog: prog, fnInfos: map[*ssa.Function]*fnInfo{},
 		baseMem: map[*Object]*cellBlock{}, globals: map[*ssa.Global]*Object{}, pkgInit: map[*ssa.Package]bool{},
-		strObjs: map[string]*Object{}, stubs: map[string]*ssa.Function{}, maxUnwind: 64, maxSteps: 20000000,
+		strObjs: map[string]*Object{}, stubs: map[string]*ssa.Function{}, maxUnwind: 64, maxSteps: 400000000,
 		funcsEncoded: map[string]bool{}, boundCache: map[[2]int]int{}, queryCache: map[string]cachedQuery{}, varsCache: map[int][]string{}}
 }
 
